@@ -113,6 +113,7 @@ func init() {
 			{"exec-confinement", "in the execution closure no store targets a package-level variable of the module or a field of a native contract object (state outside the DAO layers), one tabled exception", ruleExecConfinement},
 			{"cfg-local", "no field of the node-local configuration (config.Ledger, NeoFS fetchers, ApplicationConfiguration) is read in the execution closure, one tabled exception", ruleCfgLocal},
 			{"cache-init", "InitializeCache of every native (transitively) fills every field of its cache from storage, except tabled derived/constant fields", ruleCacheInit},
+			{"cache-pairing", "every execution-time function that stores a record InitializeCache reads into a cache field also updates that field ((key, field) pairs derived from the cache builders)", ruleCachePairing},
 			{"cache-key-shape", "all keyed accesses of one native cache map use keys of the same shape (none mixes whole prefixed storage keys with prefix-stripped ones)", ruleCacheKeyShape},
 			{"derived-invalidation", "every state-changing writer of a cache field that NEO.computeCommitteeMembers reads marks the NEO cache dirty (votesChanged), since the recomputation is skipped otherwise", ruleDerivedInvalidation},
 			{"cache-copy", "Copy() of every native cache gives the new DAO layer its own copy of every map/slice/pointer field, except the tabled replace-only fields, which are never modified in place anywhere", ruleCacheCopy},
